@@ -333,3 +333,35 @@ def check_c03(ctx):
                  "cursor at block start / mid-block / exact block end / tail; cap 5 (small geometry) reached with 6+ entries; offset-addressed reads; "
                  "non-trivial = distinct program that rotated a block, reopened or had a rejected operation",
                  ENGINE_ASSUME, real_profiles=[("budget", 10, 100)])
+
+
+def check_c02(ctx):
+    mods = ["WalrusVerif.Props.C02"]
+    if ctx.replay:
+        do_replay(ctx, mods, ["C02"])
+    engine_check(ctx, mods,
+                 [("peek", 500, 8000), ("seq", 150, 2000)],
+                 ["C02"],
+                 "random programs in which 45% of the reads are peeks and 35% of the batch reads are offset-addressed (offsets at every entry "
+                 "boundary +-1, inside headers, inside payloads, beyond the end; checkpoint true and false) interleaved with appends and consuming "
+                 "reads; every peek is checked against the FIFO oracle (= what the consuming read returns) and counts are queried throughout; "
+                 "offset reads are checked to return suffixes of appended entries in append order; non-trivial as for C01",
+                 ENGINE_ASSUME + ["reclamation bookkeeping is not observed by this check on the implementation (no tracker hook yet); "
+                                  "model-level theorem C02_batch_peek_reclaim_neutral only"],
+                 real_profiles=[("peek", 10, 100)])
+
+
+def check_c15(ctx):
+    mods = ["WalrusVerif.Props.C15"]
+    if ctx.replay:
+        do_replay(ctx, mods, ["C15"])
+    engine_check(ctx, mods,
+                 [("seq", 400, 6000), ("reject", 250, 3000), ("restart", 300, 4000)],
+                 ["C15"],
+                 "random programs with `count` queried after ~10% of the operations and around every drain, over 2 topics, with rejected operations "
+                 "(long topic names, over-cap and over-size batches, oversized entries, empty batches) and, in the restart profile, clean reopen / "
+                 "process restart events (StrictlyAtOnce, monotone clock, single-unit entries); oracle: count = appended - consumed (durable "
+                 "consumption after a restart); non-trivial as for C01",
+                 ENGINE_ASSUME + ["the restart clause is decided by correspondence + oracle on the storage-level model Eng (recovery scan, count rebuild), "
+                                  "not by a theorem"],
+                 real_profiles=[("seq", 8, 80)])
